@@ -324,6 +324,58 @@ Theorem C12_set_atom_names_closed_form : forall mol meta fgs mol' fgs', set_atom
     exact (olds ds) shnA 0 ds vs shnB /\
     map (name_in mol') nodes = map Some vs.
 Proof. exact set_atom_names_closed_form. Qed.
+(** the same read off the RETURNED graph alone: the description of the atoms is taken from mol' ([desc_of mol' namedA]) and the
+    shared atoms are those of mol' *)
+Theorem C12_set_atom_names_closed_form_returned : forall mol meta fgs mol' fgs', set_atom_names mol meta fgs = Ok (mol', fgs') ->
+  (forall g, In g (fraglist_of meta fgs) -> NoDup (snd g)) ->
+  forall pre mn nodes post, fraglist_of meta fgs = (pre ++ (mn, nodes) :: post)%list ->
+  exists (namedA : list Z) (shnA : list pyval) ds vs shnB,
+    (forall k, In k namedA <-> exists g, In g pre /\ In k (snd g)) /\
+    (forall v, In v shnA <-> exists n, In n namedA /\ sh_of mol' n /\ name_in mol' n = Some v) /\
+    GraphOps.map_res (desc_of mol' namedA) nodes = Ok ds /\
+    exact (olds ds) shnA 0 ds vs shnB /\
+    map (name_in mol') nodes = map Some vs.
+Proof. exact set_atom_names_closed_form_returned. Qed.
+(** hence for every RETURNED all-atom end-to-end step on a coarse graph with distinct keys, in terms of the returned fine graph
+    and the returned coarse 'graph' attributes alone (no hypothesis on intermediate graphs): the atoms of the coarse node mn, in
+    the order of its returned graph, carry exactly the names [exact] describes *)
+Theorem C12_step_shared_names_closed_form : forall legacy fd prev car fo,
+  resolve_step_full legacy true fd prev car = Ok fo -> NoDup (node_keys prev) ->
+  forall pre mn nodes post, fraglist_of (fo_meta fo) (fo_fgs fo) = (pre ++ (mn, nodes) :: post)%list ->
+  exists (namedA : list Z) (shnA : list pyval) ds vs shnB,
+    (forall k, In k namedA <-> exists g, In g pre /\ In k (snd g)) /\
+    (forall v, In v shnA <-> exists n, In n namedA /\ sh_of (fo_mol fo) n /\ name_in (fo_mol fo) n = Some v) /\
+    GraphOps.map_res (desc_of (fo_mol fo) namedA) nodes = Ok ds /\
+    exact (olds ds) shnA 0 ds vs shnB /\
+    map (name_in (fo_mol fo)) nodes = map Some vs.
+Proof. exact step_shared_names_closed_form. Qed.
+(** non-vacuity of the step form: {[#A][#B]}.{#A=CC[!],#B=[!]CC} all-atom with the model's own squashed graph as transcript:
+    distinct coarse keys, the step returns; coarse node 1 meets the shared carbon (C1) and its two hydrogens (H5, H6) again, its
+    own carbon steps over C1 to C2 and its hydrogens over H5, H6 to H7, H8, H9 *)
+Definition fd_SQ12 : fragdict :=
+  [(S "A", add_edge (add_node (add_node gempty 0 (catomw 3 [(S "fragname", VStr (S "A")); (S "fragid", VInt 0)]))
+                     1 (catomw 2 [(S "fragname", VStr (S "A")); (S "fragid", VInt 0); (S "bonding", VList [VStr (S "!1")])]))
+           0 1 [(S "order", VInt 1)]);
+   (S "B", add_edge (add_node (add_node gempty 0 (catomw 2 [(S "fragname", VStr (S "B")); (S "fragid", VInt 0); (S "bonding", VList [VStr (S "!1")])]))
+                     1 (catomw 3 [(S "fragname", VStr (S "B")); (S "fragid", VInt 0)]))
+           0 1 [(S "order", VInt 1)])].
+Definition m3_SQ12 : option graph :=
+  match resolve_disconnected fd_SQ12 base_AB with
+  | Ok (m1, fg1) => match bonding_step true true base_AB m1 fg1 with
+                    | Ok (m2, _) => match Hydro.Squash.squash_atoms m2 with Ok m3 => Some m3 | _ => None end | _ => None end
+  | _ => None end.
+Example C12_step_shared_names_closed_form_nonvacuous :
+  NoDup (node_keys base_AB) /\
+  match m3_SQ12 with
+  | Some m3 =>
+      match resolve_step_full true true fd_SQ12 base_AB (Some m3) with
+      | Ok fo => Ok (fraglist_of (fo_meta fo) (fo_fgs fo), map (name_in (fo_mol fo)) [4; 7; 5; 6; 8; 9; 10])
+      | Err e => Err e
+      end
+  | None => Err EKey
+  end = Ok ([(0, [0; 4; 1; 2; 3; 5; 6]); (1, [4; 7; 5; 6; 8; 9; 10])],
+            map (fun s => Some (VStr s)) [S "C1"; S "C2"; S "H5"; S "H6"; S "H7"; S "H8"; S "H9"]).
+Proof. split; [vm_compute; repeat constructor; cbn; intuition discriminate|vm_compute; reflexivity]. Qed.
 (** non-vacuity on the two-owner witness (C12_two_owners_named_apart): the fragment list has three coarse nodes with duplicate-free
     atom lists and the naming returns; coarse node 1 = [2; 3] meets two new atoms, the second one shared, when the shared name C1
     is taken: the specification gives C0 and C2 (the least free index from the counter 1 on is 2); 'C' labels differ pairwise *)
@@ -421,6 +473,8 @@ Print Assumptions C12_assign_total.
 Print Assumptions C12_exact_first_group.
 Print Assumptions C12_group_exact.
 Print Assumptions C12_set_atom_names_closed_form.
+Print Assumptions C12_set_atom_names_closed_form_returned.
+Print Assumptions C12_step_shared_names_closed_form.
 
 (** ---- source tie: the model of sort_nodes_by_attr IS the function regenerated from /repo's text on this run
     (theories/Gen/GraphUtilsGen.v by tools/gen_graphutils.py, primitives in Resolve/SourcePrims.v).  Hypotheses: the
